@@ -73,19 +73,21 @@ pub fn c11_fifty_move() {
 /// positions since the last capture or pawn move) carries the current key. History of up to 6 entries,
 /// arbitrary keys, arbitrary clock (incl. a FEN start: clock > 0 with empty history).
 #[kani::proof]
-#[kani::unwind(9)]
-pub fn c11_repetition_window() {
+#[kani::unwind(15)]
+pub fn c11_repetition_window() { repetition_window(6); }
+
+pub fn repetition_window(maxlen: usize) {
     let mut pcs = [[0u64; 6]; 2];
     pcs[0][K] = 1 << 4;
     pcs[1][K] = 1 << 60;
     let mut g = pos::game_of(&BPos { pcs, white_to_move: true, rights: [[false; 2]; 2], ep: 64 });
     let len: usize = kani::any();
-    kani::assume(len <= 6);
-    let keys: [u64; 6] = [kani::any(), kani::any(), kani::any(), kani::any(), kani::any(), kani::any()];
+    kani::assume(len <= maxlen && maxlen <= 12);
+    let keys: [u64; 12] = [kani::any(), kani::any(), kani::any(), kani::any(), kani::any(), kani::any(), kani::any(), kani::any(), kani::any(), kani::any(), kani::any(), kani::any()];
     let clock: u32 = kani::any();
     // stored clocks as real histories have them: the entry j plies back carries clock - 1 - j while inside the
     // reversible tail; older entries (before the last capture or pawn move) carry arbitrary clocks
-    let older: [u32; 6] = [kani::any(), kani::any(), kani::any(), kani::any(), kani::any(), kani::any()];
+    let older: [u32; 12] = [kani::any(), kani::any(), kani::any(), kani::any(), kani::any(), kani::any(), kani::any(), kani::any(), kani::any(), kani::any(), kani::any(), kani::any()];
     let mut i = 0;
     while i < len {
         let back = (len - 1 - i) as u32; // plies back from the current position, minus one
@@ -106,7 +108,7 @@ pub fn c11_repetition_window() {
     // oracle: entries len-1, len-2, ... len-clock (as far as they exist) are the positions since the last irreversible move
     let mut expect = false;
     let mut j = 0usize;
-    while j < 6 {
+    while j < 12 {
         if j < len && (j as u64) < clock as u64 && keys[len - 1 - j] == z { expect = true; }
         j += 1;
     }
